@@ -44,6 +44,7 @@ type c25Posting struct {
 }
 
 func c25() int {
+	tuneRuntime()
 	r := ev.Start("C25", ev.LevelExploration, 100*time.Second, 15*time.Minute)
 	two64 := new(big.Int).Lsh(big.NewInt(1), 64)
 	accounts := []string{"world", "a", "b"}
@@ -59,11 +60,13 @@ func c25() int {
 			}
 		}
 	}
-	// quick: full space up to length 2, length 3 over the sub-menu {COIN} x {0,5}
-	// (all 9 account pairs); thorough: full space up to length 3.
+	// quick: full space up to length 2, length 3 over the sub-menu
+	// {COIN 0, COIN 5, COIN 2^64, USD/2 5} (all 9 account pairs);
+	// thorough: full space up to length 3.
 	var menu3 []c25Posting
 	for _, p := range menu {
-		if r.Thorough() || (p.asset == assetMain && (p.amt.Sign() == 0 || p.amt.Cmp(big.NewInt(5)) == 0)) {
+		five := p.amt.Cmp(big.NewInt(5)) == 0
+		if r.Thorough() || (p.asset == assetMain && p.amt.Cmp(big.NewInt(1)) != 0) || (p.asset == assetOther && five) {
 			menu3 = append(menu3, p)
 		}
 	}
@@ -158,7 +161,7 @@ func c25() int {
 			r.EngineError("vacuous: no zero-amount posting was recorded")
 		}
 	}
-	bound3 := "length 3 over all 9 account pairs x COIN x {0,5}"
+	bound3 := "length 3 over all 9 account pairs x {COIN 0, COIN 5, COIN 2^64, USD/2 5}"
 	if r.Thorough() {
 		bound3 = "length 3 over the full menu"
 	}
@@ -167,15 +170,15 @@ func c25() int {
 		"distinct_nontrivial": nontrivial.Load(),
 		"rule": fmt.Sprintf("every postings list of length 1..2 over the 72-posting menu {world,a,b}^2 x {COIN,USD/2} x {0,1,5,2^64}, plus %s (%d-posting menu), x balances of a,b in {0,5}^2 (USD/2 balances = COIN balances swapped) x force off/on; %d lists; distinct_nontrivial = distinct lists with at least one successful request whose recorded postings were compared field by field",
 			bound3, len(menu3), lists),
-		"samples":                          samples.List(),
-		"exhaustive":                       exhaustive.Load(),
-		"lists":                            lists,
-		"requests_succeeded":               okRuns.Load(),
-		"requests_failed_insufficient":     failRuns.Load(),
-		"forced_requests_that_overdraw":    forcedOverdraft.Load(),
-		"zero_amount_postings_recorded":    zeroRecorded.Load(),
-		"self_postings_checked":            selfPostings.Load(),
-		"traces_validated_against_impl":    evals.Load(),
+		"samples":                       samples.List(),
+		"exhaustive":                    exhaustive.Load(),
+		"lists":                         lists,
+		"requests_succeeded":            okRuns.Load(),
+		"requests_failed_insufficient":  failRuns.Load(),
+		"forced_requests_that_overdraw": forcedOverdraft.Load(),
+		"zero_amount_postings_recorded": zeroRecorded.Load(),
+		"self_postings_checked":         selfPostings.Load(),
+		"traces_validated_against_impl": evals.Load(),
 	}
 	return r.Finish(cov, []string{
 		"`recorded` = NumscriptExecutionResult.Postings returned by MachineNumscriptRuntimeAdapter, which createTransaction commits unchanged (ledger.NewTransaction().WithPostings(result.Postings...)); the SQL commit itself is outside this check",
